@@ -672,6 +672,18 @@ pub mod harness {
                         let depths = p.depths;
                         let gate_of = p.gate_of;
                         let pid = p.id;
+                        // how many events the reference logs for each (branch, step) behind the pending points: a branch whose pending
+                        // points are released runs its step to the END while siblings are still pending
+                        let mut ref_counts: BTreeMap<(usize, usize), usize> = BTreeMap::new();
+                        for e in refv.1.iter() {
+                            let site = e.split(':').next().unwrap_or("");
+                            let f: Vec<&str> = site.split('.').collect();
+                            if f.len() >= 3 && !f[2].starts_with('o') {
+                                if let (Ok(b), Ok(k)) = (f[0].parse::<usize>(), f[1].parse::<usize>()) {
+                                    *ref_counts.entry((b, k)).or_insert(0) += 1;
+                                }
+                            }
+                        }
                         let inv = move |rel: &BTreeSet<usize>, arr: &BTreeSet<usize>, log: &[String]| -> Option<String> {
                             if faulty || gate_of.is_empty() {
                                 return None;
@@ -718,12 +730,20 @@ pub mod harness {
                                 }
                                 // progress = an event of the branch's step behind its pending points (the `.o` operand event of
                                 // step 0 is logged when the branch is built, before any pending point)
-                                let passed = log.iter().any(|e| e.starts_with(&format!("{}.{}.", b, k)) && !e.starts_with(&format!("{}.{}.o", b, k)));
+                                let done = log.iter().filter(|e| e.starts_with(&format!("{}.{}.", b, k)) && !e.starts_with(&format!("{}.{}.o", b, k))).count();
+                                let passed = done > 0;
                                 if gs.iter().all(|g| rel.contains(g)) {
                                     if !passed {
                                         return Some(format!(
                                             "quiescent state: branch {} is ready in step {} (its pending points are released) but made no progress while a sibling is pending — a pending branch blocks a ready sibling or a wake-up was lost",
                                             b, k
+                                        ));
+                                    }
+                                    let want = ref_counts.get(&(b, k)).copied().unwrap_or(0);
+                                    if done < want {
+                                        return Some(format!(
+                                            "quiescent state: branch {} is ready in step {} (its pending points are released) but ran only {} of the {} expressions of that step while a sibling is pending — the rest of its step waits for the sibling",
+                                            b, k, done, want
                                         ));
                                     }
                                 } else if !passed && !gs.iter().any(|g| arr.contains(g)) {
